@@ -223,6 +223,16 @@ class Roles:
                     out = self.f.ty(fi["output"])
                     if out and out.get("k") == "ref":
                         cands.append(b)
+            if len(cands) > 1:
+                # the read split into stages (`get_random_number` calling a private `take_next`): the role is the outermost one — the
+                # method none of the other candidates calls
+                called = set()
+                for b in cands:
+                    for _bi, _t, cb in self.local_callees(b):
+                        called.add(cb.key)
+                top = [b for b in cands if b.key not in called]
+                if len(top) == 1:
+                    cands = top
             if len(cands) != 1:
                 raise RoleLost("read method of the reader (&mut self -> &T) (found %d)" % len(cands))
             return cands[0]
